@@ -48,6 +48,8 @@ var tiers = map[string]map[string]tierCfg{
 	},
 }
 
+var maxReported = 3
+
 type known struct {
 	prop, sig, text string
 }
@@ -96,8 +98,11 @@ func main() {
 	par := fs.Int("par", runtime.NumCPU(), "simulated runs in parallel (one OS process each)")
 	seeds := fs.Int("seeds", 64, "selftest: seeds per property")
 	only := fs.Int("only", -1, "debug: execute only run index i and print its scenario and result")
+	maxReport := fs.Int("max-report", 3, "minimise and report at most this many distinct violation signatures")
+	minCand := fs.Int("min-candidates", 300, "candidate runs the minimiser may spend per violation")
 	noEvidence := fs.Bool("no-evidence", false, "do not write the evidence file (used when testing seeded defects)")
 	fs.Parse(os.Args[2:])
+	maxReported, maxCandidates = *maxReport, *minCand
 	if *tier != "quick" && *tier != "thorough" {
 		*tier = "quick"
 	}
@@ -182,6 +187,7 @@ type agg struct {
 	modes                  map[string]int
 	kinds                  map[string]int
 	knobs                  map[string]int
+	themes                 map[string]int
 	infra                  []string
 	viol                   []violRun
 	samples                []interface{}
@@ -239,6 +245,11 @@ func (a *agg) add(b *build, r runOut) {
 	a.modes[modeNames[r.scn.Sched.Mode&3]]++
 	a.kinds[r.scn.Kind]++
 	a.knobs[strconv.Itoa(r.scn.Knob)]++
+	if r.scn.Theme != "" {
+		a.themes[r.scn.Theme]++
+	} else {
+		a.themes["(mixed)"]++
+	}
 	a.interleavings[res.EventHash] = true
 	if res.NonTrivial {
 		a.nontrivial++
@@ -335,7 +346,7 @@ func check(b *build, prop, tier string, seed uint64, cfg tierCfg, par int, write
 	runDir := filepath.Join(b.scratch, "runs")
 	os.MkdirAll(runDir, 0755)
 	a := &agg{distinct: map[string]bool{}, interleavings: map[string]bool{}, faults: map[string]int64{}, probes: map[string]int64{},
-		sitesHit: map[int]bool{}, sitesSwitch: map[int]bool{}, modes: map[string]int{}, kinds: map[string]int{}, knobs: map[string]int{}}
+		sitesHit: map[int]bool{}, sitesSwitch: map[int]bool{}, modes: map[string]int{}, kinds: map[string]int{}, knobs: map[string]int{}, themes: map[string]int{}}
 	t0 := time.Now()
 	deadline := t0.Add(cfg.budget)
 	gen := func(i int) *scn.Scenario { return generate(prop, corp, mix(seed, uint64(i))) }
@@ -376,6 +387,16 @@ func check(b *build, prop, tier string, seed uint64, cfg tierCfg, par int, write
 		fmt.Printf("WARNING: determinism probe: %d of %d re-executed runs diverged (%s)\n", a.probeDiv, a.probePairs, strings.Join(diverged, ", "))
 	}
 
+	if path := os.Getenv("VERIF_SITES_REPORT"); path != "" {
+		var sb strings.Builder
+		for _, st := range b.instr.Sites {
+			if !a.sitesHit[st.ID] {
+				fmt.Fprintf(&sb, "%s:%d %s %s\n", st.File, st.Line, st.Func, st.Kind)
+			}
+		}
+		os.WriteFile(path, []byte(sb.String()), 0644)
+	}
+
 	// ---- verdict
 	code := 0
 	knownList := loadKnown(filepath.Join(vd, "known_findings.txt"))
@@ -404,7 +425,7 @@ func check(b *build, prop, tier string, seed uint64, cfg tierCfg, par int, write
 			continue
 		}
 		newViol++
-		if reported >= 3 {
+		if reported >= maxReported {
 			fmt.Printf("further violation signature (not minimised): %s in %d runs, first run %d: %s\n", sig, len(vs), vs[0].idx, oneLine(vs[0].v.Detail))
 			continue
 		}
